@@ -22,6 +22,7 @@ package dedupebuffer
 // does not hold the key.
 
 import (
+	"container/list"
 	"fmt"
 	"sort"
 	"strings"
@@ -45,6 +46,9 @@ type c25Ev struct {
 	B  []c25KV `json:",omitempty"`
 	S  int     `json:",omitempty"` // status for "status"
 	N  int     `json:",omitempty"` // batch size for "pull"
+	// Rev: for an InSync status, the deletions the buffer synthesizes for not-re-sent keys are queued in
+	// descending key order instead of ascending (the real code iterates a Go map: either order can happen).
+	Rev bool `json:",omitempty"`
 }
 
 func (e c25Ev) String() string { return vk.JSON(e) }
@@ -152,8 +156,32 @@ func (s *c25State) send(b []c25KV) {
 	s.d.OnUpdates(us)
 }
 
-func (s *c25State) status(st api.SyncStatus) {
+func (s *c25State) status(st api.SyncStatus, rev ...bool) {
+	n0 := s.d.pendingUpdates.Len()
 	s.d.OnStatusUpdated(st)
+	if st == api.InSync {
+		// Control the one source of runtime nondeterminism: onInSyncAfterReconnection ranges over a map, so
+		// the deletions it PUSHES (entries replaced in place keep their position) come in either order.
+		// Put the newly pushed tail entries into the order this event asks for.
+		var fresh []*list.Element
+		i := 0
+		for e := s.d.pendingUpdates.Front(); e != nil; e = e.Next() {
+			if _, ok := e.Value.(updateWithKey); ok && i >= n0 {
+				fresh = append(fresh, e)
+			}
+			i++
+		}
+		if len(fresh) == 2 {
+			a := fresh[0].Value.(updateWithKey).key.(model.HostConfigKey).Name
+			b := fresh[1].Value.(updateWithKey).key.(model.HostConfigKey).Name
+			wantRev := len(rev) > 0 && rev[0]
+			if (a > b) != wantRev {
+				s.d.pendingUpdates.MoveBefore(fresh[1], fresh[0])
+			}
+		} else if len(fresh) > 2 {
+			panic("harness: more than two synthesized deletions with two keys")
+		}
+	}
 	s.lastSent = st
 	if st == api.InSync {
 		s.connInSync = true
@@ -182,7 +210,7 @@ func c25Apply(s *c25State, e c25Ev) {
 	case "upd":
 		s.send(e.B)
 	case "status":
-		s.status(api.SyncStatus(e.S))
+		s.status(api.SyncStatus(e.S), e.Rev)
 	case "restart": // bare notification ("any") / first call of the triple ("typha")
 		s.d.OnTyphaConnectionRestarted()
 		s.newConn()
@@ -247,7 +275,7 @@ func c25Apply(s *c25State, e c25Ev) {
 		s.send(s.backlog[:1])
 		s.backlog = append([]c25KV(nil), s.backlog[1:]...)
 	case "insync":
-		s.status(api.InSync)
+		s.status(api.InSync, e.Rev)
 	case "resync":
 		s.status(api.ResyncInProgress)
 	default:
@@ -271,6 +299,7 @@ func c25AnyEvents() (prod, cons []c25Ev) {
 	for _, st := range []api.SyncStatus{api.WaitForDatastore, api.ResyncInProgress, api.InSync} {
 		prod = append(prod, c25Ev{Op: "status", S: int(st)})
 	}
+	prod = append(prod, c25Ev{Op: "status", S: int(api.InSync), Rev: true})
 	prod = append(prod, c25Ev{Op: "restart"}, c25Ev{Op: "restart3"})
 	// order matters for c25Enabled's prefix-sharing: pull1, pullall, pull2
 	cons = []c25Ev{{Op: "pull", N: 1}, {Op: "pullall"}, {Op: "pull", N: 2}}
@@ -312,6 +341,9 @@ func c25Enabled(s *c25State, anyProd, cons []c25Ev) []c25Ev {
 				}
 				if s.lastSent != api.InSync {
 					evs = append(evs, c25Ev{Op: "insync"})
+					if ns := s.d.liveKeysNotSeenSinceReconnect; ns != nil && ns.Len() >= 2 {
+						evs = append(evs, c25Ev{Op: "insync", Rev: true})
+					}
 				} else {
 					evs = append(evs, c25Ev{Op: "resync"})
 				}
@@ -523,7 +555,7 @@ func TestVerif_C25(t *testing.T) {
 			`{"Op":"mut","B":[{"K":"k1","V":"1"}]}`, `{"Op":"insync"}`, `{"Op":"pullall"}`, `{"Op":"restart"}`, `{"Op":"mut","B":[{"K":"k1","V":""}]}`, `{"Op":"rs-wait"}`, `{"Op":"rs-resync"}`, `{"Op":"insync"}`, `{"Op":"pullall"}`},
 			"expect": "k1 vanished while disconnected: sink ends empty"})
 		// graph mode, both environments; the state space is finite so a high bound reaches the fixpoint.
-		dAny, dTy := c.Pick(9, 60), c.Pick(12, 80)
+		dAny, dTy := c.Pick(9, 14), c.Pick(12, 19)
 		st := hbfs.Explore(c, c25Spec(c, "any", dAny, false))
 		c.Extra("any_fixpoint_reached", st.Complete && st.Depth < dAny)
 		st = hbfs.Explore(c, c25Spec(c, "typha", dTy, false))
